@@ -502,6 +502,11 @@ impl std::io::Write for FileSpillWriter {
             )));
         }
 
+        // verification fault switch: make the OS-level write below fail for real (ENOSPC)
+        #[cfg(datafusion_verif)]
+        if datafusion_common::verif::point("dm_write_fault", &[len as i64]) != 0 {
+            self.file = std::fs::OpenOptions::new().write(true).open("/dev/full")?;
+        }
         self.file.write_all(buf).map_err(DataFusionError::IoError)?;
 
         self.current_file_disk_usage
